@@ -7,6 +7,7 @@ import (
 	"errors"
 	"fmt"
 	"io"
+	"unicode/utf16"
 	"unicode/utf8"
 
 	"github.com/ohler55/ojg"
@@ -47,6 +48,8 @@ type Parser struct {
 	mi         int
 	num        gen.Number
 	rn         rune
+	hi         rune // pending high surrogate of a \uXXXX escape
+	hiEnd      int  // len(tmp) just after hi was appended
 	result     any
 	mode       string
 	lastKey    gen.Key
@@ -126,6 +129,7 @@ func (p *Parser) Parse(buf []byte, args ...any) (any, error) {
 	} else {
 		p.stack = p.stack[:0]
 		p.tmp = p.tmp[:0]
+		p.hi = 0
 		p.starts = p.starts[:0]
 	}
 	p.result = nil
@@ -197,6 +201,7 @@ func (p *Parser) ParseReader(r io.Reader, args ...any) (data any, err error) {
 	} else {
 		p.stack = p.stack[:0]
 		p.tmp = p.tmp[:0]
+		p.hi = 0
 		p.starts = p.starts[:0]
 	}
 	p.result = nil
@@ -549,6 +554,7 @@ func (p *Parser) parseBuffer(buf []byte, last bool) (err error) {
 			p.plus = true
 			p.lastStrKey = p.lastKey
 		case strQuote:
+			p.hi = 0
 			if b == p.quoteDelim {
 				if err := p.addString(string(p.tmp), off); err != nil {
 					return err
@@ -599,8 +605,19 @@ func (p *Parser) parseBuffer(buf []byte, last bool) (err error) {
 				if len(p.runeBytes) < 6 {
 					p.runeBytes = make([]byte, 6)
 				}
+				if 0xDC00 <= p.rn && p.rn <= 0xDFFF && p.hi != 0 && p.hiEnd == len(p.tmp) {
+					// The low half of a surrogate pair directly after the high
+					// half. Replace the high half with the combined rune.
+					p.tmp = p.tmp[:len(p.tmp)-3]
+					p.rn = utf16.DecodeRune(p.hi, p.rn)
+				}
+				p.hi = 0
 				n := utf8.EncodeRune(p.runeBytes, p.rn)
 				p.tmp = append(p.tmp, p.runeBytes[:n]...)
+				if 0xD800 <= p.rn && p.rn <= 0xDBFF {
+					p.hi = p.rn
+					p.hiEnd = len(p.tmp)
+				}
 				p.mode = stringMap
 			}
 			continue
